@@ -113,7 +113,10 @@ PROPS = {
         'trusted': SPECTRUM_TRUST,
         'extra': [{'name': 'order_slots', 'kind': 'bounded', 'script': 'bounded/order_slots.py'},
                   # service documents with N / M fixed, free or mixed in several entries, loaded and planned end to end
-                  {'name': 'nm_requests', 'kind': 'bounded', 'script': 'bounded/nm_requests.py', 'timeout': 2400}],
+                  {'name': 'nm_requests', 'kind': 'bounded', 'script': 'bounded/nm_requests.py', 'timeout': 2400},
+                  # histories of services over lines without amplifier (fused-only patches, passive lines): no shared slot on a shared
+                  # link, per-OMS occupancy = union of the services crossing it in either direction
+                  {'name': 'spectrum_sharing', 'kind': 'bounded', 'script': 'bounded/spectrum_sharing.py', 'timeout': 2400}],
     },
     'C15': {
         'level': 'proof',
